@@ -1265,11 +1265,19 @@ def build_operator_operand_fixup(capture_error_state):
         try:
             if op == 'USub':
                 return PYTHON_AST_OPERATORS[op](right_op)
+            elif op == 'Pow' and left_op < 0 and int(right_op) != right_op:
+                # python would return a complex number, ie: (-8) ^ 0.5
+                capture_error_state(
+                    True, f'Values: {left_op} {op} {right_op}')
+                return NUM_ERROR
             else:
                 return PYTHON_AST_OPERATORS[op](left_op, right_op)
         except ZeroDivisionError:
             capture_error_state(True, f'Values: {left_op} {op} {right_op}')
             return DIV0
+        except OverflowError:
+            capture_error_state(True, f'Values: {left_op} {op} {right_op}')
+            return NUM_ERROR
         except TypeError:
             capture_error_state(True, f'Values: {left_op} {op} {right_op}')
             return VALUE_ERROR
